@@ -1487,6 +1487,11 @@ impl Vm {
         Call::Err(LyError::Exit(code)) => self.set_exit(code),
       },
       NativeEnvironment::Normal => {
+        // the stub frame counts toward the frame limit like any other frame
+        if self.fiber.frames().len() >= MAX_FRAME_SIZE {
+          return self.runtime_error_from_str(self.builtin.errors.runtime, "Stack overflow.");
+        }
+
         let mut stub = self.native_fun_stubs.pop().unwrap_or_else(|| {
           self.manage_obj(Fun::stub(
             &GcHooks::new(self),
@@ -1535,7 +1540,7 @@ impl Vm {
     }
 
     // set the current current instruction pointer. check for overflow
-    if self.fiber.frames().len() == MAX_FRAME_SIZE {
+    if self.fiber.frames().len() >= MAX_FRAME_SIZE {
       return self.runtime_error_from_str(self.builtin.errors.runtime, "Stack overflow.");
     }
 
@@ -1551,7 +1556,7 @@ impl Vm {
     }
 
     // set the current current instruction pointer. check for overflow
-    if self.fiber.frames().len() == MAX_FRAME_SIZE {
+    if self.fiber.frames().len() >= MAX_FRAME_SIZE {
       return self.runtime_error_from_str(self.builtin.errors.runtime, "Stack overflow.");
     }
 
